@@ -11,6 +11,10 @@ virtual fields) — at every struct level.  Multi-line texts containing an array
 elements are only counted (open finding `multiline-array-elements-not-comma-separated`).
 `corpus/C06/*.emb` (hand-written dependency shapes, pinned inputs of repaired findings) run in
 both tiers.
+
+`# C06-PARTIAL struct=… buffer=… unreadable=… text=…` lines of a corpus file pin a buffer whose
+view is not Ok by content together with the hand-written expectation for
+WriteToString(view, options.WithAllowPartialOutput(true)): see run_partial_annotations.
 """
 import os
 import re
@@ -26,7 +30,8 @@ SKIP_FILES = {"importer.emb", "importer2.emb", "no_enum_traits.emb", "no_cpp_nam
 
 RUN = r"""
 template <class Make>
-static void RunCorpus(Make make, int multiline, int comments, int base, int grouping, const std::string &bytes) {
+static void RunCorpus(Make make, int multiline, int comments, int base, int grouping, const std::string &bytes,
+                      bool partial) {
   size_t n = bytes.size();
   std::unique_ptr<unsigned char[]> b1(new unsigned char[n]);
   std::unique_ptr<unsigned char[]> b2(new unsigned char[n]);
@@ -35,11 +40,17 @@ static void RunCorpus(Make make, int multiline, int comments, int base, int grou
   auto v = make(b1.get(), n);
   bool ok = v.Ok();
   std::cout << "ok=" << ok;
-  if (!ok) { std::cout << "\n"; return; }
   ::emboss::TextOutputOptions o;
   o = o.Multiline(multiline != 0).WithComments(comments != 0).WithNumericBase(static_cast<uint8_t>(base))
        .WithDigitGrouping(grouping != 0);
   if (multiline) o = o.WithIndent("  ");
+  if (partial) {
+    // allow_partial_output on a pinned buffer (`P!` lines); WriteToString without the flag is
+    // documented to CHECK-fail on a view that is not Ok and is never called on one
+    std::cout << " ptext=" << Hex(::emboss::WriteToString(v, o.WithAllowPartialOutput(true))) << "\n";
+    return;
+  }
+  if (!ok) { std::cout << "\n"; return; }
   std::string text = ::emboss::WriteToString(v, o);
   std::cout << " text=" << Hex(text) << std::flush;
   auto w = make(b2.get(), n);
@@ -115,6 +126,102 @@ def param_tuples(n, r, bounds=None):
     return uniq
 
 
+def partial_annotations(text):
+    """`# C06-PARTIAL struct=… buffer=… unreadable=… text=…` lines of a corpus file: hand-written
+    expectations for allow_partial_output on a buffer whose view is not Ok by content."""
+    out = []
+    for m in re.finditer(r"^# C06-PARTIAL struct=(\S+) buffer=([0-9a-f]*) unreadable=(\S+) text=(.*)$", text, re.M):
+        labels = []
+        for lab in ([] if m.group(3) == "-" else m.group(3).split(",")):
+            mi = re.match(r"^\[(\d+)\]$", lab)
+            labels.append(("idx", int(mi.group(1))) if mi else lab)
+        out.append({"struct": m.group(1), "buffer": m.group(2), "unreadable": labels, "text": m.group(4).strip()})
+    return out
+
+
+def normal_form(parsed):
+    """Parsed text with numbers by value (any base / digit grouping), `{ }` as an aggregate
+    without members, array elements as (index, value)."""
+    if parsed[0] == "tok":
+        v = I.ref_value(parsed[1])
+        return ("tok", parsed[1] if v is None else v)
+    if parsed[0] == "empty":
+        return ("aggregate", ())
+    if parsed[0] == "array":
+        return ("aggregate", tuple((i, normal_form(x)) for i, x in parsed[1]))
+    return ("aggregate", tuple((n, normal_form(x)) for n, x in parsed[1]))
+
+
+def run_partial_annotations(chk, stats, origin, text, table, binary, annotations, known_structs):
+    """The pinned not-Ok-by-content buffers of a corpus file under the PARTIAL_OPTS option sets."""
+    lines, meta = [], []
+    for a in annotations:
+        if a["struct"] not in known_structs:
+            raise common.InfraError("%s: C06-PARTIAL names an unknown struct %s" % (origin, a["struct"]))
+        try:
+            want = normal_form(T.parse_text(a["text"])[0])
+        except T.ParseError as e:
+            raise common.InfraError("%s: C06-PARTIAL expectation does not parse (%s): %s" % (origin, e, a["text"]))
+        for opt in T.PARTIAL_OPTS:
+            lines.append("P!%s %d %d %d %d %s" % ((a["struct"],) + opt + (a["buffer"] or "-",)))
+            meta.append((a, opt, want))
+    if not lines:
+        return
+    res = cppbuild.run(binary, "\n".join(lines) + "\n", timeout=900)
+    if res.kind != "ok":
+        out = crash_records(chk, binary, lines, res, origin, text, table)
+    else:
+        out = res.out.split("\n")[:-1]
+    reported = set()
+    for ln, (a, opt, want), ans in zip(lines, meta, out):
+        if ans is None:
+            continue
+        chk.count()
+        stats["partial_by_content_pinned_cases"] = stats.get("partial_by_content_pinned_cases", 0) + 1
+        chk.nontrivial("td/%s/%s/not-ok-by-content/%s/%r" % (origin, a["struct"], a["buffer"], opt))
+        kv = dict(x.split("=", 1) for x in ans.split(" ") if "=" in x)
+        m, c, _b, _g = opt
+        got_text = I.unhex(kv.get("ptext", ""))
+        problems = []
+        if kv.get("ok") != "0":
+            problems.append("the view is Ok(), the annotation says it is not")
+        if "ptext" not in kv:
+            problems.append("no text produced")
+        cnt = got_text.count("UNREADABLE")
+        if not c and cnt:
+            problems.append("UNREADABLE mentioned although comments are off")
+        if c and cnt != len(a["unreadable"]):
+            problems.append("comments are on: %d UNREADABLE comments, %d unreadable atomic fields %r" % (
+                cnt, len(a["unreadable"]), a["unreadable"]))
+        if c and m and sorted(map(repr, T.unreadable_labels(got_text))) != sorted(map(repr, a["unreadable"])):
+            problems.append("UNREADABLE comments name %r, expected %r" % (T.unreadable_labels(got_text), a["unreadable"]))
+        if cnt:
+            stats["partial_by_content_pinned_unreadable_comment"] = \
+                stats.get("partial_by_content_pinned_unreadable_comment", 0) + 1
+        if (m, c) != T.LAYOUT_NOT_RR and "ptext" in kv:
+            try:
+                parsed, _ = T.parse_text(got_text)
+            except T.ParseError as e:
+                parsed = None
+                problems.append("text does not parse: %s" % e)
+            if parsed is not None:
+                if normal_form(parsed) != want:
+                    problems.append("the text denotes %r, expected %r" % (normal_form(parsed), want))
+                D.check_text(table, D.find_struct(table, a["struct"]), parsed, "", problems, stats)
+        if not problems:
+            continue
+        sig = (a["struct"], problems[0][:40])
+        if sig in reported:
+            continue
+        reported.add(sig)
+        chk.violation("input", {
+            "part": "TXT", "origin": origin, "emb": text, "struct": a["struct"], "buffer": a["buffer"], "parameters": [],
+            "options": dict(zip(("multiline", "comments", "base", "grouping"), opt)), "allow_partial_output": True,
+            "text": got_text, "observed": ["PARTIAL-CONTENT (pinned): " + p for p in problems[:6]],
+            "expected": "allow_partial_output on a view that is not Ok by content: " + a["text"] +
+                        " ; UNREADABLE comments (iff comments are on) for " + repr(a["unreadable"])})
+
+
 def corpus_files(tier):
     d = os.path.join(common.REPO, "testdata")
     names = QUICK_FILES if tier == "quick" else sorted(f for f in os.listdir(d) if f.endswith(".emb"))
@@ -135,6 +242,8 @@ def crash_records(chk, binary, lines, res, origin, text, table):
                "observed": ["%s: %s" % (one.kind, one.err[-1500:])],
                "expected": "no sanitizer report / failed CHECK; every field after the fields it depends on"}
         rec.update(T.line_fields(bad))
+        if str(rec.get("struct", "")).startswith("P!"):
+            rec["struct"], rec["allow_partial_output"] = rec["struct"][2:], True      # pinned not-Ok buffer
         if bad:
             rec["parameters"] = [int(x) for x in bad.split(" ")[6:]]
             import re as _re
@@ -143,7 +252,7 @@ def crash_records(chk, binary, lines, res, origin, text, table):
                 rec["text"] = I.unhex(m.group(1))
                 try:
                     parsed, _ = T.parse_text(rec["text"])
-                    D.check_text(table, D.find_struct(table, bad.split(" ")[0]), parsed, "", rec["observed"])
+                    D.check_text(table, D.find_struct(table, rec["struct"]), parsed, "", rec["observed"])
                 except T.ParseError:
                     rec["observed"].append("text does not parse")
         chk.violation("input", rec)
@@ -156,7 +265,7 @@ def run_corpus(chk, tier):
     scratch = os.path.join(common.scratch(), "c06corpus")
     os.makedirs(scratch, exist_ok=True)
     jobs, metas = [], []
-    ns_of = {}
+    ns_of, annotations = {}, {}
     for origin, path in corpus_files(tier):
         fn = os.path.basename(path)
         with open(path) as f:
@@ -195,15 +304,17 @@ def run_corpus(chk, tier):
                "    std::istringstream in(line);\n    std::string name, hex; int m, c, b, g;\n"
                "    in >> name >> m >> c >> b >> g >> hex;\n    std::string bytes = Unhex(hex);\n"
                "    long long P[8] = {0, 0, 0, 0, 0, 0, 0, 0};\n    for (int i = 0; i < 8; ++i) { if (!(in >> P[i])) break; }\n"
-               "    (void)P;\n    if (false) {}"]
+               "    (void)P;\n    bool partial = name.rfind(\"P!\", 0) == 0;\n    if (partial) name = name.substr(2);\n"
+               "    if (false) {}"]
         for s_name, casts in structs:
             args = "".join("%s(P[%d]), " % (c, i) for i, c in enumerate(casts))
             src.append('    else if (name == "%s") RunCorpus([&](unsigned char *d, size_t n) { return ::%s::Make%sView(%sd, n); },'
-                       ' m, c, b, g, bytes);' % (s_name, ns, s_name, args))
+                       ' m, c, b, g, bytes, partial);' % (s_name, ns, s_name, args))
         src.append('    else std::cout << "bad-op\\n";\n  }\n  return 0;\n}')
         jobs.append({"src_text": "\n".join(src), "name": "c06td_" + tag, "extra": ["-I" + scratch],
                      "compiler": "clang++", "opt": "-O0"})
         metas.append((origin, text, structs, table))
+        annotations[origin] = partial_annotations(text)
     bins = cppbuild.compile_many(jobs, workers=8)
     cands = candidates(r, tier)
     # first pass: which buffers (and parameter tuples) are Ok (single option set)
@@ -236,6 +347,9 @@ def run_corpus(chk, tier):
                     lines.append("%s 0 0 10 0 %s%s" % (s_name, b.hex() or "-", "".join(" %d" % v for v in pt)))
         items.append((binary, "\n".join(lines) + "\n"))
         idx.append((origin, text, structs, table, lines))
+        if annotations.get(origin):
+            run_partial_annotations(chk, stats, origin, text, table, binary, annotations[origin],
+                                    set(n for n, _ in structs))
     res1 = T.run_many_long(items, workers=6)
     items2, idx2 = [], []
     opts = [(m, c, b, g) for (m, c) in T.LAYOUTS_RR for b in T.BASES for g in (0, 1)]
@@ -263,7 +377,10 @@ def run_corpus(chk, tier):
             if seen_per_call[call] > (4 if tier == "quick" else 20):
                 continue
             seen_per_struct[s] = seen_per_struct.get(s, 0) + 1
-            if seen_per_struct[s] > ((16 if corpus_file else 8) if tier == "quick" else 60):
+            # files about pinned not-Ok buffers: their ordinary round trips run in the thorough tier only
+            # (structs with [requires] / Bcd on Ok buffers are covered by the generated modules)
+            cap_quick = 0 if annotations.get(origin) else (16 if corpus_file else 8)
+            if seen_per_struct[s] > (cap_quick if tier == "quick" else 60):
                 continue
             for o in opts:
                 lines2.append("%s %d %d %d %d %s" % ((s,) + o + (" ".join(p[5:]),)))
